@@ -11,6 +11,13 @@
 //!       `<init|next>.<sort>.<state>.<value>` `out.<kind>.<value>` `justice.<n1>,<n2>,…`
 //!   joined by `|`, then `END`, `E:io`, `E:syn:<line>:<col>` or `E:panic`.
 //!   With `ls=1` (one line per read) every item carries `@<bytes delivered by the source>`.
+//!   Scale cases keep observations small: a byte field (comment, symbol, constant digits) of more
+//!   than 256 bytes is printed as `#<len>:<fnv-1a 64 of the bytes>`, a justice list of more than 256
+//!   conditions as `#<n>:<fnv of the comma-joined text>`, and if the `|`-joined items exceed 65536
+//!   bytes they are replaced by `#T<items>:<bytes>:<fnv of that text>` (same formulas in the driver).
+//!   `d=` (and the string of `v=`) are data fields (`common::data_field`: hex / `r` / `n` / `g`
+//!   segments); `e=<line>:<col>` is the exact location of the syntax error the document was built
+//!   to have (C08); `big=1`: the model is skipped, the oracles below still run.
 //! Oracles: C01 (same observation under every schedule), C03 (constructed lines → write_into →
 //! parse, `x`; parse∘write∘parse = parse), C04 (fault ⇒ io), C05 (no panic), C06 (independent
 //! whitespace tokenizer), C08 (location in range / on the corrupted token `t`), C09 (no line
@@ -67,9 +74,73 @@ fn lower_debug<T: std::fmt::Debug>(t: &T) -> String {
     format!("{:?}", t).to_lowercase()
 }
 
+pub fn fnv64_step(mut h: u64, bytes: &[u8]) -> u64 {
+    for b in bytes {
+        h ^= *b as u64;
+        h = h.wrapping_mul(0x100000001b3);
+    }
+    h
+}
+
+pub const FNV_INIT: u64 = 0xcbf29ce484222325;
+
+/// A byte field of an observation: hex up to 256 bytes, `#<len>:<fnv-1a 64 of the bytes>` beyond.
+pub fn fhex(b: &[u8]) -> String {
+    if b.len() <= 256 {
+        hex(b)
+    } else {
+        format!("#{}:{:016x}", b.len(), fnv64_step(FNV_INIT, b))
+    }
+}
+
+/// The condition list of a justice line (numerals as text): comma-joined up to 256 conditions,
+/// `#<n>:<fnv of the comma-joined text>` beyond.
+pub fn justice_text(ns: &[String]) -> String {
+    if ns.is_empty() {
+        "-".to_string()
+    } else if ns.len() <= 256 {
+        ns.join(",")
+    } else {
+        let mut h = FNV_INIT;
+        for (i, n) in ns.iter().enumerate() {
+            if i > 0 {
+                h = fnv64_step(h, b",");
+            }
+            h = fnv64_step(h, n.as_bytes());
+        }
+        format!("#{}:{:016x}", ns.len(), h)
+    }
+}
+
+/// Items and final outcome, `|`-joined; if the joined items exceed 65536 bytes they are replaced
+/// by `#T<items>:<bytes>:<fnv of the joined items>`.  Streaming, so that a generator can state the
+/// expected observation of a document of millions of lines without building the text.
+pub fn join_obs(items: impl Iterator<Item = String>, fin: &str) -> String {
+    let mut body = String::new();
+    let (mut n, mut len, mut h) = (0usize, 0usize, FNV_INIT);
+    for it in items {
+        if n > 0 {
+            h = fnv64_step(h, b"|");
+            len += 1;
+            if len <= 65536 { body.push('|'); }
+        }
+        h = fnv64_step(h, it.as_bytes());
+        len += it.len();
+        if len <= 65536 { body.push_str(&it); }
+        n += 1;
+    }
+    if len > 65536 {
+        format!("#T{}:{}:{:016x}|{}", n, len, h, fin)
+    } else if n == 0 {
+        fin.to_string()
+    } else {
+        format!("{}|{}", body, fin)
+    }
+}
+
 fn opt_hex(b: &Option<Vec<u8>>) -> String {
     match b {
-        Some(b) => hex(b),
+        Some(b) => fhex(b),
         None => "~".into(),
     }
 }
@@ -122,14 +193,14 @@ impl OLine {
     /// Canonical text of a line.
     pub fn obs(&self) -> String {
         match self {
-            OLine::Comment(c) => format!("c:{}", hex(c)),
+            OLine::Comment(c) => format!("c:{}", fhex(c)),
             OLine::Node { id, variant, symbol, comment } => {
                 let v = match variant {
                     OVariant::SortBitVec(w) => format!("sort.bitvec.{}", w),
                     OVariant::SortArray(d, c) => format!("sort.array.{}.{}", d, c),
-                    OVariant::Const(s, OConst::Binary(c)) => format!("val.{}.const.{}", s, hex(c.as_bytes())),
-                    OVariant::Const(s, OConst::Decimal(c)) => format!("val.{}.constd.{}", s, hex(c.as_bytes())),
-                    OVariant::Const(s, OConst::Hex(c)) => format!("val.{}.consth.{}", s, hex(c.as_bytes())),
+                    OVariant::Const(s, OConst::Binary(c)) => format!("val.{}.const.{}", s, fhex(c.as_bytes())),
+                    OVariant::Const(s, OConst::Decimal(c)) => format!("val.{}.constd.{}", s, fhex(c.as_bytes())),
+                    OVariant::Const(s, OConst::Hex(c)) => format!("val.{}.consth.{}", s, fhex(c.as_bytes())),
                     OVariant::Const(s, OConst::One) => format!("val.{}.one", s),
                     OVariant::Const(s, OConst::Ones) => format!("val.{}.ones", s),
                     OVariant::Const(s, OConst::Zero) => format!("val.{}.zero", s),
@@ -147,10 +218,9 @@ impl OLine {
                         format!("{}.{}.{}.{}", lower_debug(kind), sort, state, value)
                     }
                     OVariant::Output(kind, v) => format!("out.{}.{}", lower_debug(kind), v),
-                    OVariant::Justice(ns) => format!(
-                        "justice.{}",
-                        if ns.is_empty() { "-".to_string() } else { ns.iter().map(|n| n.to_string()).collect::<Vec<_>>().join(",") }
-                    ),
+                    OVariant::Justice(ns) => {
+                        format!("justice.{}", justice_text(&ns.iter().map(|n| n.to_string()).collect::<Vec<_>>()))
+                    }
                 };
                 format!("n:{}:{}:{}:{}", id, v, opt_hex(symbol), opt_hex(comment))
             }
@@ -245,13 +315,7 @@ pub struct RunObs {
 
 impl RunObs {
     pub fn text(&self, with_delivered: bool) -> String {
-        let mut v: Vec<String> = self
-            .items
-            .iter()
-            .map(|(l, d)| if with_delivered { format!("{}@{}", l.obs(), d) } else { l.obs() })
-            .collect();
-        v.push(self.fin.clone());
-        v.join("|")
+        join_obs(self.items.iter().map(|(l, d)| if with_delivered { format!("{}@{}", l.obs(), d) } else { l.obs() }), &self.fin)
     }
 }
 
@@ -312,7 +376,7 @@ fn reference_line(line: &[u8]) -> Option<String> {
     let start = line.iter().position(|b| *b != b' ')?;
     let line = &line[start..];
     if line[0] == b';' {
-        return Some(format!("c:{}", hex(&line[1..])));
+        return Some(format!("c:{}", fhex(&line[1..])));
     }
     // tokens separated by single spaces; a token that starts with ';' starts the comment
     let mut toks: Vec<&[u8]> = vec![];
@@ -356,7 +420,7 @@ fn reference_line(line: &[u8]) -> Option<String> {
                 return None;
             }
             let v: Vec<String> = (0..n).map(|k| pos(3 + k)).collect::<Option<Vec<_>>>()?;
-            (format!("justice.{}", v.join(",")), 3 + n)
+            (format!("justice.{}", justice_text(&v)), 3 + n)
         }
         "const" | "constd" | "consth" => {
             let c = *toks.get(3)?;
@@ -370,7 +434,7 @@ fn reference_line(line: &[u8]) -> Option<String> {
             if !ok {
                 return None;
             }
-            (format!("val.{}.{}.{}", pos(2)?, kw, hex(c)), 4)
+            (format!("val.{}.{}.{}", pos(2)?, kw, fhex(c)), 4)
         }
         "one" | "ones" | "zero" | "input" | "state" => (format!("val.{}.{}", pos(2)?, kw), 3),
         "uext" | "sext" => (format!("val.{}.op.{}.{}.{}", pos(2)?, kw, pos(3)?, nonneg(4)?), 5),
@@ -420,6 +484,8 @@ pub struct Case {
     pub expect: Option<String>,
     pub tok: Option<(usize, usize, usize)>,
     pub valid: Option<(char, Vec<u8>)>,
+    /// `e=<line>:<col>`: the exact location of the syntax error the document was built to have
+    pub exact: Option<(usize, usize)>,
 }
 
 impl Case {
@@ -434,19 +500,34 @@ impl Case {
                 let v: Vec<usize> = s.split(':').map(|x| x.parse().unwrap()).collect();
                 (v[0], v[1], v[2])
             }),
-            valid: f.opt("v").map(|s| (s.chars().next().unwrap(), unhex(&s[2..]))),
+            valid: f.opt("v").map(|s| (s.chars().next().unwrap(), data_field(&s[2..]))),
+            exact: f.opt("e").map(|s| {
+                let (l, c) = s.split_once(':').unwrap();
+                (l.parse().unwrap(), c.parse().unwrap())
+            }),
         }
     }
     pub fn line(&self) -> String {
         format!(
-            "btor2 k={} ls={} d={}{}{}{}",
+            "btor2 k={} ls={} d={}{}{}{}{}",
             match self.k { Some(k) => k.to_string(), None => "-".into() },
             self.ls as u8,
             hex(&self.data),
             match &self.expect { Some(x) => format!(" x={}", x), None => String::new() },
             match &self.tok { Some((l, c, n)) => format!(" t={}:{}:{}", l, c, n), None => String::new() },
             match &self.valid { Some((t, s)) => format!(" v={}:{}", t, hex(s)), None => String::new() },
+            match &self.exact { Some((l, c)) => format!(" e={}:{}", l, c), None => String::new() },
         )
+    }
+}
+
+/// C08, exact clause: the document was built from a well-formed prefix and one offending byte /
+/// numeral at a known place; the error must be reported exactly there.
+fn exact_oracle(exact: Option<(usize, usize)>, fault: bool, fin: &str, sname: &str, fails: &mut Vec<String>) {
+    if let (Some((l, c)), false) = (exact, fault) {
+        if fin != format!("E:syn:{}:{}", l, c) {
+            fails.push(format!("C08:the input stops being well-formed exactly at {}:{} but the parser reported {}{}", l, c, fin, sname));
+        }
     }
 }
 
@@ -482,6 +563,7 @@ pub fn run_case(line: &str) -> (String, Vec<String>) {
         if obs.fin == "E:panic" {
             fails.push("C05:parser panicked".into());
         }
+        exact_oracle(c.exact, fault, &obs.fin, " (one line per read)", &mut fails);
         // item i is completed by the i-th non-blank line: nothing beyond that line may have been pulled
         let mut starts = vec![0usize];
         for (i, b) in delivered.iter().enumerate() {
@@ -556,6 +638,7 @@ pub fn run_case(line: &str) -> (String, Vec<String>) {
     } else if c.tok.is_some() && !fault && base.fin == "END" {
         fails.push("C08:the corrupted token was accepted".into());
     }
+    exact_oracle(c.exact, fault, &base.fin, "", &mut fails);
     // ---- C03: the lines that were constructed and written
     if let Some(x) = &c.expect {
         if !fault && &base_text != x {
@@ -568,7 +651,15 @@ pub fn run_case(line: &str) -> (String, Vec<String>) {
             let want: Vec<&String> = rd.iter().map(|(s, _)| s).collect();
             let got: Vec<String> = base.items.iter().map(|(l, _)| l.obs()).collect();
             if want.len() != got.len() || want.iter().zip(got.iter()).any(|(a, b)| *a != b) {
-                fails.push(format!("C06:returned lines {:?} differ from the text {:?}", got, want));
+                if want.len() + got.len() <= 64 {
+                    fails.push(format!("C06:returned lines {:?} differ from the text {:?}", got, want));
+                } else {
+                    let i = want.iter().zip(got.iter()).position(|(a, b)| *a != b).unwrap_or(want.len().min(got.len()));
+                    fails.push(format!(
+                        "C06:{} returned lines differ from the {} lines of the text, first at index {}: {:?} vs {:?}",
+                        got.len(), want.len(), i, got.get(i), want.get(i)
+                    ));
+                }
             }
         }
         // ---- C03 converse: parse(write(parse(t))) = parse(t)
